@@ -15,7 +15,7 @@ Three harness families, all on the REAL `Builder.build` (parse + `House.resolve`
 
 Oracle (exactly the statement): the call returns (True or False) or raises ParseError /
 ResolveError / a ValueError coming out of the literal converters; anything else escaping, or the
-CPU-time limit expiring twice (0.25 s user time for a build that takes ~1 ms), is a violation.
+CPU-time limit expiring twice (0.1 s, then 0.4 s user time for a build that takes ~1 ms), is a violation.
 
 Nothing is genuinely symbolic here: script text is assembled from selector values and realised per
 path, the Builder then runs untraced on concrete text.  The solver's role is the proof that the
@@ -40,10 +40,11 @@ ASSUMPTIONS = [
     "with frames fa and fb in fa) + ONE generated command line (mutate/free), or a generated set of frame / "
     "clone relations (relations/*)",
     "token alphabets per verb = tokens of the verb's seed commands + a generic set (defined/undefined/wrong-kind "
-    "names, absolute/relative/invalid paths, numbers, malformed hex, quoted string, reserved connectives, a "
+    "names, absolute/relative/invalid paths, the name of an existing store node, numbers, malformed hex, quoted string, "
+    "reserved connectives, a "
     "comparison); listed in bounds",
-    "non-termination is detected by a limit of 0.25 s user-mode CPU time per build (ITIMER_VIRTUAL; a build takes "
-    "about 1 ms), confirmed by repeating the interrupted build once under the same limit; "
+    "non-termination is detected by a limit of 0.1 s user-mode CPU time per build (ITIMER_VIRTUAL; a build takes "
+    "about 1 ms), confirmed by repeating the interrupted build once under a 0.4 s limit; "
     "the engine's wall-clock backstop (hang_s) stays armed behind it",
     "a ValueError is accepted only when it is raised inside one of building.Convert2* (the literal converters) or is "
     "int()/float()/complex() rejecting a script literal ('invalid literal', 'could not convert'); "
@@ -53,7 +54,7 @@ ASSUMPTIONS = [
     "message formatting done before raising is inside",
 ]
 
-CPU_LIMIT = 0.25
+CPU_LIMIT = 0.1
 
 PRELUDE = """house h1
 init .sx with value 5
@@ -70,9 +71,11 @@ framer ff be active first fa
   frame fb in fa
 """
 
-GENERIC = ["", "fa", "fx", "fm", "lg", "zz", "me", ".sx", "sm", "a..b", "2", "0x1g", '"q s"', "in", "of", "is", "=="]
+GENERIC = ["", "fa", "fx", "fm", "lg", "zz", "me", ".sx", "sm", "framer", "a..b", "2", "0x1g", '"q s"', "in", "of", "is",
+           "=="]     # "framer" is both a relation keyword and the name of an existing store node
 
 CORE = ["fa", "lg", "zz", "me", ".sx", "a..b", "2", "of"]
+FREE_CORE = ["fa", "fx", "lg", "zz", "me", ".sx", "sm", "framer", "a..b", "2", '"q s"', "of", "in"]
 
 SEEDS = {
     "load": ["load zz.flo"],
@@ -147,6 +150,23 @@ def hang_construct(stack):
     return "hang-in-" + (stack[-1] if stack else "unknown")
 
 
+LIBRARY = ("Store.", "Share.", "Node.", "Data.", "Registrar.", "StoriedRegistrar.", "odict.")
+
+
+def origin(r):
+    """where an escaping exception comes from: the innermost ioflo function; when that is the store /
+    registry layer (or a constructor), also the nearest builder / resolver function that called into it,
+    because only that identifies the failing construct"""
+    where = r.where or "unknown"
+    stack = list(r.stack or [])
+    lib = lambda f: f.startswith(LIBRARY) or f.endswith(".__init__")
+    if lib(where):
+        for f in reversed(stack[:-1]):
+            if not lib(f):
+                return "%s-via-%s" % (where, f)
+    return where
+
+
 def judge(sym, r, detail):
     """the C14 oracle on one Built record"""
     if r.hung:
@@ -166,7 +186,7 @@ def judge(sym, r, detail):
                 or msg.startswith("could not convert string to float") or msg.startswith("complex() arg"):
             sym.cover("script-error")
             return True
-    sym.fail("C14/internal/%s-in-%s" % (type(e).__name__, r.where),
+    sym.fail("C14/internal/%s-in-%s" % (type(e).__name__, origin(r)),
              "%s: %s <- %s" % (type(e).__name__, str(e).strip()[:120], detail))
 
 
@@ -178,9 +198,10 @@ def _tokens(seed):
 SEED_TOKENS = {v: [_tokens(s) for s in SEEDS[v]] for v in SEEDS}
 
 
-def h_mutate(sym, verb, alpha, seeds):
-    """seeds = indices into SEEDS[verb] handled by this shard"""
-    si = seeds[sym.choice("seed", len(seeds))] if len(seeds) > 1 else seeds[0]
+def h_mutate(sym, items, alphas, inserts):
+    """items = [(verb, seed index)] handled by this shard; alphas[verb] = replacement tokens,
+    inserts[verb] = tokens that may be inserted"""
+    verb, si = items[fb.pick(sym, "item", len(items))] if len(items) > 1 else items[0]
     n = len(SEED_TOKENS[verb][si]) - 1
     op = sym.choice("op", 4)           # 0 replace, 1 insert, 2 delete, 3 truncate
     if op == 1:
@@ -188,6 +209,7 @@ def h_mutate(sym, verb, alpha, seeds):
     else:
         sym.assume(n > 0)
         pos = fb.pick(sym, "pos", n)
+    alpha = alphas[verb] if op == 0 else inserts[verb]
     ti = fb.pick(sym, "tok", len(alpha)) if op in (0, 1) else 0
     with fb.notrace(sym):
         toks = SEED_TOKENS[verb][si]
@@ -211,7 +233,9 @@ def h_mutate(sym, verb, alpha, seeds):
     return judge(sym, r, line)
 
 
-def h_free(sym, verb, alpha, k):
+def h_free(sym, verbs, alphas, k):
+    verb = verbs[fb.pick(sym, "verb", len(verbs))] if len(verbs) > 1 else verbs[0]
+    alpha = alphas[verb]
     idx = []
     for i in range(k):
         t = fb.pick(sym, "t%d" % i, len(alpha))
@@ -225,28 +249,30 @@ def h_free(sym, verb, alpha, k):
 
 
 # ---- frame relations ------------------------------------------------------------------------
-def h_frames(sym, n, first_opt):
+def h_frames(sym, n, first_opt, kinds=("in", "over", "under")):
     """n frames f0..f(n-1); frame i gets one relation option:
-       0 none | 1+j `frame fi in <Tj>` | 1+T+j `over <Tj>` | 1+2T+j `under <Tj>`; targets T = f0..f(n-1), zz"""
+       0 none | 1+j `frame fi in <Tj>` | 1+T+j `over <Tj>` | 1+2T+j `under <Tj>`; targets T = f0..f(n-1), zz
+       (with kinds=("in","under") the `over` verb, which stores the same link as `in`, is left out)"""
     targets = ["f%d" % i for i in range(n)] + ["zz"]
     T = len(targets)
+    K = len(kinds)
     lines = ["house h1", "framer ff be active first f0"]
     desc = []
     for i in range(n):
-        o = first_opt if i == 0 else sym.choice("rel%d" % i, 1 + 3 * T)
+        o = first_opt if i == 0 else fb.pick(sym, "rel%d" % i, 1 + K * T)
         name = "f%d" % i
         if o == 0:
             lines.append("  frame %s" % name)
             desc.append(name)
         else:
-            kind, j = divmod(o - 1, T)
-            t = targets[j]
-            if kind == 0:
+            ki, j = divmod(o - 1, T)
+            kind, t = kinds[ki], targets[j]
+            if kind == "in":
                 lines.append("  frame %s in %s" % (name, t))
             else:
                 lines.append("  frame %s" % name)
-                lines.append("    %s %s" % ("over" if kind == 1 else "under", t))
-            desc.append("%s %s %s" % (name, ("in", "over", "under")[kind], t))
+                lines.append("    %s %s" % (kind, t))
+            desc.append("%s %s %s" % (name, kind, t))
     text = "\n".join(lines) + "\n"
     with fb.notrace(sym):
         r = fb.build(text, cpu_limit=CPU_LIMIT)
@@ -277,6 +303,14 @@ def h_clones(sym, m):
     return judge(sym, r, " / ".join(desc))
 
 
+def _name(prefix, verbs, n, total):
+    vs = []
+    for v in verbs:
+        if v not in vs:
+            vs.append(v)
+    return prefix + "+".join(vs) + ("" if total == 1 else "#%d" % n)
+
+
 def obligations(tier):
     quick = tier == "quick"
     out = []
@@ -285,42 +319,74 @@ def obligations(tier):
         for t in alphabet(verb):
             if t not in union:
                 union.append(t)
+    generic = [t for t in GENERIC if t]
+    alphas = {v: (alphabet(v) if quick else union) for v in VERBS}
+    inserts = {v: (generic if quick else union) for v in VERBS}     # quick: only generic tokens are inserted
+    limit = 2500 if quick else 4000
+    shards, cur, size = [], [], 0
     for verb in VERBS:
-        alpha = alphabet(verb) if quick else union
-        chunks, cur, size = [], [], 0
         for i, toks in enumerate(SEED_TOKENS[verb]):
-            cost = (2 * len(toks) - 1) * len(alpha)
-            if cur and size + cost > (2500 if quick else 4000):
-                chunks.append(cur)
+            L = len(toks) - 1
+            cost = L * len(alphas[verb]) + (L + 1) * len(inserts[verb]) + 2 * L
+            if cur and size + cost > limit:
+                shards.append(cur)
                 cur, size = [], 0
-            cur.append(i)
+            cur.append((verb, i))
             size += cost
-        chunks.append(cur)
-        for ci, chunk in enumerate(chunks):
-            name = "mutate/" + verb + ("" if len(chunks) == 1 else "/%d" % ci)
-            out.append(Ob(name, h_mutate, dict(verb=verb, alpha=alpha, seeds=chunk),
-                          budget=300 if quick else 2400, per_path=60, hang_s=60, max_fail_keys=12,
-                          bounds=dict(seeds=[SEEDS[verb][i] for i in chunk], alphabet=alpha,
-                                      mutations="1 of replace/insert/delete/truncate at any position")))
+    shards.append(cur)
+    counts = {}
+    for sh in shards:
+        key = tuple(sorted(set(v for v, _ in sh), key=VERBS.index))
+        counts[key] = counts.get(key, 0) + 1
+    seen = {}
+    for sh in shards:
+        key = tuple(sorted(set(v for v, _ in sh), key=VERBS.index))
+        n = seen.get(key, 0)
+        seen[key] = n + 1
+        vs = list(key)
+        out.append(Ob(_name("mutate/", vs, n, counts[key]), h_mutate,
+                      dict(items=sh, alphas={v: alphas[v] for v in vs}, inserts={v: inserts[v] for v in vs}),
+                      budget=300 if quick else 2400, per_path=60, hang_s=60, max_fail_keys=60,
+                      bounds=dict(seeds=[SEEDS[v][i] for v, i in sh], replacement_alphabet={v: alphas[v] for v in vs},
+                                  inserted_tokens=generic if quick else "same as replacement alphabet",
+                                  mutations="1 of replace/insert/delete/truncate at any position")))
+    falphas = {}
     for verb in VERBS:
         alpha = alphabet(verb)
+        own = [t for t in alpha if t not in GENERIC]
         if quick:
-            k, a = 2, [""] + alpha
+            falphas[verb] = [""] + own[:9] + [t for t in FREE_CORE if t not in own[:9]]
         else:   # the verb's own words first (connectives, keywords), then a core of generic tokens
-            own = [t for t in alpha if t not in GENERIC][:11]
-            k, a = 3, [""] + own + [t for t in CORE if t not in own]
-        out.append(Ob("free/" + verb, h_free, dict(verb=verb, alpha=a, k=k),
-                      budget=300 if quick else 2400, per_path=60, hang_s=60, max_fail_keys=12,
-                      bounds=dict(alphabet=a, tokens_after_verb="<= %d" % k)))
-    n = 3 if quick else 4
-    nopt = 1 + 3 * (n + 1)
+            own = own[:11]
+            falphas[verb] = [""] + own + [t for t in CORE if t not in own]
+    k = 2 if quick else 3
+    groups, cur, size = [], [], 0
+    for verb in VERBS:
+        cost = (len(falphas[verb]) - 1) ** k
+        if cur and size + cost > (2500 if quick else 8000):
+            groups.append(cur)
+            cur, size = [], 0
+        cur.append(verb)
+        size += cost
+    groups.append(cur)
+    for g in groups:
+        out.append(Ob(_name("free/", g, 0, 1), h_free, dict(verbs=g, alphas={v: falphas[v] for v in g}, k=k),
+                      budget=300 if quick else 2400, per_path=60, hang_s=60, max_fail_keys=60,
+                      bounds=dict(alphabets={v: falphas[v] for v in g}, tokens_after_verb="<= %d" % k)))
+    nopt = 1 + 3 * 4
     for o in range(nopt):
-        out.append(Ob("relations/frames/first=%d" % o, h_frames, dict(n=n, first_opt=o),
-                      budget=400 if quick else 3600, per_path=60, hang_s=60, max_fail_keys=12,
-                      bounds=dict(frames=n, relation_per_frame="none | in T | over T | under T",
+        out.append(Ob("relations/frames3/first=%d" % o, h_frames, dict(n=3, first_opt=o),
+                      budget=400 if quick else 1200, per_path=60, hang_s=60, max_fail_keys=60,
+                      bounds=dict(frames=3, relation_per_frame="none | in T | over T | under T",
                                   targets="every frame incl. itself + undefined")))
+    if not quick:
+        for o in range(1 + 2 * 5):
+            out.append(Ob("relations/frames4/first=%d" % o, h_frames, dict(n=4, first_opt=o, kinds=("in", "under")),
+                          budget=2400, per_path=60, hang_s=60, max_fail_keys=60,
+                          bounds=dict(frames=4, relation_per_frame="none | in T | under T (`over T` stores the same "
+                                      "link as `in T`)", targets="every frame incl. itself + undefined")))
     out.append(Ob("relations/clones", h_clones, dict(m=1 if quick else 2),
-                  budget=300 if quick else 900, per_path=60, hang_s=60, max_fail_keys=12,
+                  budget=300 if quick else 900, per_path=60, hang_s=60, max_fail_keys=60,
                   bounds=dict(moot_framers=1 if quick else 2,
                               clone_line_per_moot="none | aux T as tag | aux T as mine",
                               targets="every moot incl. itself, an aux framer, the main framer, undefined")))
